@@ -648,6 +648,8 @@ def c02():
     # a transient storage error in the flush that should store the entry, then a good flush / close: a fresh handle reads what was written
     ff = [gen.flush_fault_io_program(rng, "flush-fault-%d" % i, gen.K(["K1b", "K2", "K5"][i % 3]), CS[["K1b", "K2", "K5"][i % 3]]) for i in range(scale(24, 240))]
     res.append(("io-flush-fault", core.campaign("io-flush-fault", ff, wd)))
+    # a root directory that ends inside a sector fills up next to a file in the first data clusters
+    res.append(("io-root-tail", core.campaign("io-root-tail", [gen.root_tail_program(rng, "root-tail-%d" % i) for i in range(scale(3, 12))], wd)))
     # a device call of a growing write fails, the write is repeated, other files grow: no chain may lead into a free cluster
     af = [gen.append_fault_program(rng, "append-fault-%d" % i, gen.K(["K1b", "K2", "K5", "K3"][i % 4]), CS[["K1b", "K2", "K5", "K3"][i % 4]]) for i in range(scale(40, 400))]
     res.append(("io-append-fault", core.campaign("io-append-fault", af, wd)))
@@ -877,6 +879,9 @@ def c12():
             # end some sessions by dropping the file system or abandoning it, and continue afterwards
             k = rng.randrange(5, len(p["ops"]))
             p["ops"].insert(k, {"op": rng.choice(["unmount", "dropfs", "abandon"])})
+            # status and statistics queries in mid-session (after changes, before the session ends): they only look
+            for _q in range(rng.randrange(0, 4)):
+                p["ops"].insert(rng.randrange(3, len(p["ops"])), {"op": rng.choice(["status", "status", "stats", "info"])})
             progs.append(p)
     res = [("status", core.campaign("status", progs, wd))]
     res.append(("ro", core.campaign("ro", fam_ro("C12", ["K1b", "K5"], scale(10, 100), 25), wd)))
@@ -901,6 +906,8 @@ def c09():
     ks = ["K1b", "K3", "K5"] if core.tier() == "quick" else ["K1", "K1b", "K2", "K3", "K4b", "K5", "K5b"]
     for kname in ks:
         progs.append(gen.fault_program("flt-%s" % kname, gen.K(kname), CS[kname]))
+    for kname in ["K1", "K1b"]:
+        progs.append(gen.fault_wrap_program("flt-wrap-%s" % kname, gen.K(kname), CS[kname]))
     # the same fixed history mounted with the non-default option strict(false) (lenient paths must not swallow storage errors either)
     for kname in (["K5"] if core.tier() == "quick" else ["K1b", "K3", "K5"]):
         progs.append(gen.fault_program("flt-%sL" % kname, dict(gen.K(kname), strict=False), CS[kname]))
@@ -1030,7 +1037,7 @@ def c15():
     rng = rng_for("C15", 0)
     batches = gen.name_sets(rng, fold_table(), quick=(core.tier() == "quick"))
     cfg = dict(gen.K("K2"), obs={"raw": True, "rv": True, "sv": True})
-    batches = batches + gen.overlong_fold_batches()
+    batches = batches + gen.overlong_fold_batches() + gen.alias_fold_batches()
     progs = [gen.name_program("names-%d" % i, cfg, names, lookups) for i, (names, lookups) in enumerate(batches)]
     res = [("names", core.campaign("names", progs, wd, n_shards=14))]
     # names stay what they are while their neighbours come and go (gaps of deleted slots reused by longer and shorter names)
@@ -1076,7 +1083,7 @@ def c16():
                 n += 1
                 progs.append(gen.alias_program(rng, "alias-%s-%d" % (kname, n), cfg, names))
     # names whose 16-bit hash is the largest value (and the one before): 13 + 9k collisions make the generator step its hash k times, past 0xFFFF
-    for j, (target, cnt) in enumerate([(0xFFFF, 15), (0xFFFE, 24), (0xFFFF, 24)]):
+    for j, (target, cnt) in enumerate([(0xFFFF, 15), (0xFFFE, 24), (0xFFFF, 24), (0x695D, 9), (0x9999, 12), (0x0A9F, 8)]):
         progs.append(gen.alias_program(rng, "alias-wrap-%d" % j, gen.K("K3"), gen.names_with_hash(rng, cnt, target), removals=0.0))
     res = [("alias", core.campaign("alias", progs, wd, n_shards=14))]
     moves = [gen.alias_move_program(rng, "alias-move-%s-%d" % (k, i), gen.K(k), n=rng.choice([4, 8, 12])) for k in ("K2", "K3", "K5") for i in range(scale(6, 60))]
@@ -1238,6 +1245,13 @@ def c11():
         vol, cs = gen.end_of_table_volume(rng, [12, 16, 32][i % 3])
         progs.append(gen.fill_program(rng, "c11-eot-%d" % i, {"vol": vol, "short": rng.choice([0, 0, rng.randrange(1, 1 << 30)])}, cs, rounds=1,
                                       chunk_clusters=(1, 2), use_dirs=(i % 2 == 0)))
+    # volumes of exactly 4084 / 4085 / 65524 / 65525 clusters (the width of the table entries changes there), populated by someone else
+    for i in range(scale(8, 80)):
+        n = [4084, 4085, 65524, 65525][i % 4]
+        vol, cs = small_foreign(rng, 12 if n < 4085 else 16 if n < 65525 else 32, n=n)
+        progs.append(gen.fill_program(rng, "c11-bnd-%d-%d" % (n, i), {"vol": vol}, cs, rounds=1, chunk_clusters=(1, 2, 3), use_dirs=(i % 2 == 0)))
+        vol, cs = small_foreign(rng, 12 if n < 4085 else 16 if n < 65525 else 32, n=n)
+        progs.append(gen.io_program(rng, "c11-bnd-io-%d-%d" % (n, i), {"vol": vol}, cs, 25))
     # a file is emptied or shortened, other files take the space (same session or after a remount), then it is written again through a new
     # handle: every write must land in clusters that are the file's own or were free
     for i in range(scale(24, 240)):
